@@ -225,6 +225,14 @@ impl<S: 'static> FnOnceQueue<S> {
         self.storage.cap()
     }
 
+    // Verification hooks: storage geometry (length, capacity, base address)
+    #[cfg(uazu_stakker_verif)]
+    #[doc(hidden)]
+    #[allow(dead_code)]
+    pub fn verif_geometry(&self) -> (usize, usize, usize) {
+        (self.storage.verif_base(), self.storage.len(), self.storage.cap())
+    }
+
     /// Execute all the `FnOnce` instances found on this queue,
     /// passing them the given context object ref.  Leaves the queue
     /// empty, but with the same backing memory still allocated to
@@ -335,6 +343,13 @@ mod hvec {
         /// Return total capacity of the queue in bytes
         pub fn cap(&self) -> usize {
             self.cap
+        }
+
+        /// Verification hook: base address of the allocation
+        #[cfg(uazu_stakker_verif)]
+        #[allow(dead_code)]
+        pub fn verif_base(&self) -> usize {
+            self.ptr as usize
         }
 
         /// Push a (VP,T) to the buffer.  If there isn't enough space,
